@@ -368,7 +368,7 @@ inductive Fin where
   | exhausted            -- StopIteration
   | raised (e : Err)
   | oof
-  deriving Repr, BEq, Inhabited
+  deriving Repr, DecidableEq, Inhabited
 
 structure RunOut where
   items : List V
